@@ -35,30 +35,130 @@ def _allowed_classes(ctx):
     return classes, chars
 
 
+_UNKNOWN = object()
+
+
+def _peval(e, env):
+    """value of an expression under env (names -> constants), or _UNKNOWN"""
+    if isinstance(e, ast.Constant):
+        return e.value
+    if isinstance(e, ast.Name):
+        return env.get(e.id, _UNKNOWN)
+    if isinstance(e, ast.Call) and norm(e) in ("float('inf')", 'float("inf")'):
+        return float('inf')
+    if isinstance(e, ast.Attribute) and norm(e) in ('math.inf',):
+        return float('inf')
+    if isinstance(e, ast.Tuple):
+        vs = [_peval(x, env) for x in e.elts]
+        return _UNKNOWN if any(v is _UNKNOWN for v in vs) else tuple(vs)
+    if isinstance(e, ast.IfExp):
+        t = _peval(e.test, env)
+        if t is _UNKNOWN:
+            return _UNKNOWN
+        return _peval(e.body if t else e.orelse, env)
+    if isinstance(e, ast.UnaryOp) and isinstance(e.op, ast.Not):
+        v = _peval(e.operand, env)
+        return _UNKNOWN if v is _UNKNOWN else (not v)
+    if isinstance(e, ast.BoolOp):
+        vs = [_peval(x, env) for x in e.values]
+        if isinstance(e.op, ast.And):
+            if any(v is not _UNKNOWN and not v for v in vs):
+                return False
+            return _UNKNOWN if any(v is _UNKNOWN for v in vs) else True
+        if any(v is not _UNKNOWN and v for v in vs):
+            return True
+        return _UNKNOWN if any(v is _UNKNOWN for v in vs) else False
+    if isinstance(e, ast.Compare):
+        left = _peval(e.left, env)
+        res = True
+        for op, c in zip(e.ops, e.comparators):
+            right = _peval(c, env)
+            if left is _UNKNOWN or right is _UNKNOWN:
+                return _UNKNOWN
+            try:
+                r = {ast.Eq: lambda a, b: a == b, ast.NotEq: lambda a, b: a != b, ast.Lt: lambda a, b: a < b, ast.LtE: lambda a, b: a <= b,
+                     ast.Gt: lambda a, b: a > b, ast.GtE: lambda a, b: a >= b, ast.In: lambda a, b: a in b, ast.NotIn: lambda a, b: a not in b}[type(op)](left, right)
+            except (KeyError, TypeError):
+                return _UNKNOWN
+            res = res and r
+            left = right
+        return res
+    return _UNKNOWN
+
+
+def _length_refusals(ctx, fi, level):
+    """{name of the measured variable: limit} for `if len(X) > K ...: raise PyCdlibInvalidInput` reached when the
+    predicate runs with interchange_level == level (partial evaluation of the tests on the level; K may be a
+    literal or a local that the level decides, in statement or conditional-expression form)"""
+    from ..engine import raises_class
+    out = {}
+
+    def refusal_terms(test, env):
+        terms = []
+        ts = test.values if isinstance(test, ast.BoolOp) and isinstance(test.op, ast.Or) else [test]
+        for t in ts:
+            if isinstance(t, ast.Compare) and len(t.ops) == 1 and isinstance(t.left, ast.Call) and norm(t.left.func) == 'len' and t.left.args and \
+                    isinstance(t.left.args[0], ast.Name):
+                k = _peval(t.comparators[0], env)
+                if k is _UNKNOWN or isinstance(k, bool) or not isinstance(k, (int, float)):
+                    continue
+                if isinstance(t.ops[0], ast.Gt):
+                    terms.append((t.left.args[0].id, k))
+                elif isinstance(t.ops[0], ast.GtE):
+                    terms.append((t.left.args[0].id, k - 1))
+        return terms
+
+    def walk(body, env):
+        for st in body:
+            if isinstance(st, ast.Assign) and len(st.targets) == 1 and isinstance(st.targets[0], ast.Name):
+                v = _peval(st.value, env)
+                if v is _UNKNOWN:
+                    env.pop(st.targets[0].id, None)
+                else:
+                    env[st.targets[0].id] = v
+            elif isinstance(st, ast.If):
+                t = _peval(st.test, env)
+                raises = any(isinstance(x, ast.Raise) and raises_class(x) == 'PyCdlibInvalidInput' for x in st.body)
+                if raises and t is not False:
+                    for var, k in refusal_terms(st.test, env):
+                        if k != float('inf'):
+                            out[var] = min(out.get(var, k), k)
+                if t is _UNKNOWN:
+                    e1, e2 = dict(env), dict(env)
+                    walk(st.body, e1)
+                    walk(st.orelse, e2)
+                    for k in list(env):
+                        if e1.get(k, _UNKNOWN) != e2.get(k, _UNKNOWN):
+                            env.pop(k)
+                    for k in e1:
+                        if k not in env and k in e2 and e1[k] == e2[k]:
+                            env[k] = e1[k]
+                elif t:
+                    walk(st.body, env)
+                else:
+                    walk(st.orelse, env)
+            elif isinstance(st, (ast.For, ast.While, ast.With, ast.Try)):
+                for nm in [x.id for x in ast.walk(st) if isinstance(x, ast.Name) and isinstance(x.ctx, ast.Store)]:
+                    env.pop(nm, None)
+    params = [p for p in fi.params]
+    lv = params[1] if len(params) > 1 else 'interchange_level'
+    walk(fi.node.body, {lv: level})
+    return out
+
+
 def _limits(ctx):
     """length limits per level extracted from the predicates: {(kind, level): limit}"""
     out = {}
     fd = ctx.func('pycdlib._check_iso9660_directory')
-    for n in ctx.own_nodes(fd):
-        if isinstance(n, ast.If) and isinstance(n.test, ast.Compare) and norm(n.test.left) == 'interchange_level':
-            levels = []
-            c = n.test.comparators[0]
-            if isinstance(n.test.ops[0], ast.Eq) and isinstance(c, ast.Constant):
-                levels = [c.value]
-            elif isinstance(n.test.ops[0], ast.In) and isinstance(c, ast.Tuple):
-                levels = [e.value for e in c.elts if isinstance(e, ast.Constant)]
-            for st in n.body:
-                if isinstance(st, ast.Assign) and norm(st.targets[0]) == 'maxlen' and isinstance(st.value, ast.Constant):
-                    for l in levels:
-                        out[('dir', l)] = st.value.value
     ff = ctx.func('pycdlib._check_iso9660_filename')
-    for n in ctx.own_nodes(ff):
-        if isinstance(n, ast.If) and isinstance(n.test, ast.Compare) and norm(n.test) == 'interchange_level == 1':
-            for sub in ast.walk(n):
-                if isinstance(sub, ast.Compare) and isinstance(sub.left, ast.Call) and norm(sub.left.func) == 'len' and \
-                        isinstance(sub.ops[0], ast.Gt) and isinstance(sub.comparators[0], ast.Constant):
-                    which = norm(sub.left.args[0])
-                    out[('file-' + which, 1)] = sub.comparators[0].value
+    dparam = fd.params[0]
+    for level in (1, 2, 3):
+        r = _length_refusals(ctx, fd, level)
+        if dparam in r:
+            out[('dir', level)] = r[dparam]
+        r = _length_refusals(ctx, ff, level)
+        for var, k in r.items():
+            out[('file-' + var, level)] = k
     if ('dir', 1) not in out or ('file-name', 1) not in out or ('file-extension', 1) not in out:
         raise AnalysisError('anchor-vanished: length limits in the ISO9660 acceptance predicates (%s)' % out)
     return out
